@@ -36,6 +36,7 @@ RULE += ' `slow` cases: the loop is built with timeout_seconds = 5 ms and some a
 RULE += " Round 7: the stub agents' payload is, per case, their name (as before) or one of empty string / None / 0 / False / [] / {} / a structure / 5000 characters; the 6x7x7 table is enumerated again with empty, None, 0 and [] payloads."
 RULE += ' Round 7: a `decoy` (pbt/props/_decoys.py): a second object of the class, differently configured and put through a misleading script (same prompts / names / ids, opposite verdicts and limits), is built in the same process after the object under test.'
 RULE += " Round 8: `@logic` pseudo-requests assign another gate logic to the loop's public `gate_logic` attribute between requests (cache cleared with it); all ordered pairs of logics are enumerated with a request before and after the change."
+RULE += " Round 10: in about half of the cases the agents' replies carry a source_agent of their own (the other agent's name, or a delegate's): the issuer named by a token is still the assessor."
 EXHAUSTIVE_NOTE = {"quick": "6x7x7 verdict table x (4 prompts x cache on/off + 3 confidence corners) = 3234 cells, complete",
                    "thorough": "6x7x7 verdict table x (4 prompts x cache on/off + 3 confidence corners) = 3234 cells, complete"}
 
@@ -114,6 +115,14 @@ def judge(case):
     # Whatever the loop does about a slow agent, each request is judged by the verdicts its own agents gave for it
     loop, ex, ass, _budget = make_loop(logic, breaker=False, cache=case["cache"], agent_timeout=0.005 if case.get("slow") else None)
     ex.payload_mode = ass.payload_mode = case.get("payload", "named")
+    stamp = (len(case["reqs"]) + len(logic)) % 3
+    if stamp == 1:
+        # replies carry a source_agent of their own: the assessor's names the executor (or a delegate), the executor's names the assessor
+        ass.source, ex.source = ex.name, ass.name
+        out.label("stamped-replies")
+    elif stamp == 2 and len(case["reqs"]) % 2:
+        ass.source = "delegate-of-" + ass.name
+        out.label("stamped-replies")
     if case.get("payload", "named") != "named":
         out.label("payload:%s" % case["payload"])
     if case.get("decoy"):
